@@ -39,6 +39,8 @@ def check(ctx):
   c20.r1(ctx, f)
   c20.late_binding(ctx, f)
   c14.r3(ctx)
+  ctx.rule('C14.R4', 'shared with C14: a reply is decoded into a struct of its own and classified from that struct alone (a shared result struct hands a call the value of an earlier reply)')
+  c14.r4(ctx)
   from .. import wire
   ser = prog.func('scales/thrift/serializer.py', 'MessageSerializer.SerializeThriftCall')
   for rel, q in ((TS, 'ThriftSerializerSink.AsyncProcessRequest'), (TM, 'ThriftMuxMessageSerializerSink.AsyncProcessRequest')):
@@ -150,8 +152,35 @@ def r3(ctx):
   ctx.floor('C02.R3', 'paths through the write', n, 6)
 
 
+def fresh_reply_stream(ctx):
+  """The receive loop hands every frame to its own greenlet: the stream object it hands over must be created for that frame."""
+  prog = ctx.prog
+  f = prog.func(MUX, 'MuxSocketTransportSink._RecvLoop')
+  why = ('each reply is decoded later, on another greenlet: a buffer that the receive loop refills for the next frame (two replies readable at once) '
+         'is decoded as the other reply, which is then delivered under the wrong tag / never delivered')
+  loops = [n for n in f.node.body if isinstance(n, ast.While)]
+  if not loops:
+    ctx.ob('C02.R4', f, 'receive loop present', False, 'no loop in _RecvLoop', why)
+    return
+  n = 0
+  for ev, ex in enum_paths(ctx, f, body=loops[0].body):
+    sp = [(i, e.node) for i, e in enumerate(ev) if e.kind == 'call' and (call_name(e.node) or '').split('.')[-1] in ('spawn', 'spawn_later', 'start_new') and len(e.node.args) >= 2
+          and U(e.node.args[0]).endswith('_ProcessReply')]
+    for i, c in sp:
+      n += 1
+      arg = c.args[-1]
+      fresh = isinstance(arg, ast.Call) and U(arg.func).split('.')[-1] in ('BytesIO', 'StringIO')
+      if isinstance(arg, ast.Name):
+        defs = [e.node for e in ev[:i] if e.kind == 'stmt' and isinstance(e.node, ast.Assign) and any(U(t) == arg.id for t in e.node.targets)]
+        fresh = bool(defs) and isinstance(defs[-1].value, ast.Call) and U(defs[-1].value.func).split('.')[-1] in ('BytesIO', 'StringIO')
+      ctx.ob('C02.R4', f, 'every received frame gets a stream object of its own', fresh,
+             'the stream handed to _ProcessReply (%s) is not created in the iteration that read the frame' % U(arg), why)
+  ctx.floor('C02.R4', 'frames handed to a reply greenlet', n, 1)
+
+
 def r4(ctx):
   prog = ctx.prog
+  fresh_reply_stream(ctx)
   why = ('replies are matched to requests by tag only: the tag decoded from the reply must select the entry registered under that tag and the '
          'reply must be delivered to that entry\'s sink stack')
   f = prog.func(MUX, 'MuxSocketTransportSink._ProcessTaggedReply')
